@@ -105,12 +105,12 @@ func stateListMatches(list []string, state string) bool {
 }
 
 type RuleSwitch struct {
-	MatchKind string   `json:"match_kind,omitempty"` // "" (every rule) | "alerting" | "recording"
+	MatchKind string `json:"match_kind,omitempty"` // "" (every rule) | "alerting" | "recording"
 	// MatchState: match{state=[...]} of the block (empty = no state filter, whatever the command)
 	MatchState []string `json:"match_state,omitempty"`
-	Enable    []string `json:"enable,omitempty"`
-	Disable   []string `json:"disable,omitempty"`
-	First     bool     `json:"first,omitempty"` // rendered before the other rule blocks
+	Enable     []string `json:"enable,omitempty"`
+	Disable    []string `json:"disable,omitempty"`
+	First      bool     `json:"first,omitempty"` // rendered before the other rule blocks
 }
 
 func (rs RuleSwitch) hcl() string {
@@ -188,7 +188,8 @@ type problem struct {
 	Reporter string `json:"reporter"`
 	Summary  string `json:"summary"`
 	Severity string `json:"severity"`
-	Kind     string `json:"kind,omitempty"` // "alerting" | "recording" | "" (not part of the key)
+	Kind     string `json:"kind,omitempty"`  // "alerting" | "recording" | "" (not part of the key)
+	State    string `json:"state,omitempty"` // entry state in match{state} words (not part of the key)
 }
 
 func (p problem) key() string {
@@ -321,16 +322,14 @@ func run(c Case, v variant, url string, metaCheck bool) (res runResult) {
 		res.Err = fmt.Errorf("discovery failed: %w", lr.FindErr)
 		return res
 	}
-	removed := map[string]bool{}
+	states := map[string]discovery.ChangeType{}
 	for _, f := range c.Files {
-		if f.Removed {
-			removed[f.Name] = true
-		}
+		states[f.Name] = fileState(f)
 	}
 	entries := lr.Entries
 	for i := range entries {
-		if removed[filepath.Base(entries[i].Path.Name)] {
-			entries[i].State = discovery.Removed
+		if st, ok := states[filepath.Base(entries[i].Path.Name)]; ok {
+			entries[i].State = st
 		}
 	}
 	defer func() {
@@ -339,7 +338,15 @@ func run(c Case, v variant, url string, metaCheck bool) (res runResult) {
 		}
 	}()
 	cfg := lr.Cfg
-	ctx := context.WithValue(context.Background(), config.CommandKey, config.LintCommand)
+	ctx := context.Background()
+	switch c.Command {
+	case "lint":
+		ctx = context.WithValue(ctx, config.CommandKey, config.LintCommand)
+	case "ci":
+		ctx = context.WithValue(ctx, config.CommandKey, config.CICommand)
+	case "watch":
+		ctx = context.WithValue(ctx, config.CommandKey, config.WatchCommand)
+	}
 	gen := config.NewPrometheusGenerator(cfg, prometheus.NewRegistry())
 	defer gen.Stop()
 	if err := gen.GenerateStatic(); err != nil {
@@ -387,6 +394,7 @@ func run(c Case, v variant, url string, metaCheck bool) (res runResult) {
 					Summary:  p.Summary,
 					Severity: p.Severity.String(),
 					Kind:     kind,
+					State:    stateNames[entry.State],
 				})
 			}
 		}
@@ -722,8 +730,19 @@ func genConfig(t *rapid.T) (hcl string, class string) {
 		i := rapid.IntRange(0, nblocks-1).Draw(t, "blk."+kb.kind)
 		blocks[i] = append(blocks[i], kb.hcl(t))
 	}
-	for _, blk := range blocks {
-		b.WriteString("rule {\n  # all\n")
+	for bi, blk := range blocks {
+		// some check-defining blocks say which entry states they apply to (the documented way to check unmodified
+		// rules under `pint ci` is state = ["any"]); blocks without match keep the "# all" marker rule{disable}
+		// "merge" looks for
+		switch rapid.IntRange(0, 5).Draw(t, fmt.Sprintf("blockState%d", bi)) {
+		case 0, 1:
+			b.WriteString("rule {\n  # matched\n  match {\n    state = [\"any\"]\n  }\n")
+		case 2:
+			st := rapid.SampledFrom([][]string{{"unmodified"}, {"unmodified", "added"}, {"added", "modified", "renamed"}, {"modified"}}).Draw(t, fmt.Sprintf("blockStates%d", bi))
+			fmt.Fprintf(&b, "rule {\n  # matched\n  match {\n    state = [%s]\n  }\n", quoteList(st))
+		default:
+			b.WriteString("rule {\n  # all\n")
+		}
 		if rapid.IntRange(0, 5).Draw(t, "locked") == 0 {
 			b.WriteString("  locked = true\n")
 		}
@@ -795,6 +814,14 @@ func genDoc(t *rapid.T) Case {
 	cfg, ccls := genConfig(t)
 	files, fcls := genFiles(t)
 	c := Case{Kind: "toggle", Files: files, Config: cfg, DB: defaultDB(), Fixtures: defaultFixtures(), Class: ccls + ";" + fcls}
+	// the command in the context and the change state of every file's rules
+	c.Command = rapid.SampledFrom([]string{"lint", "lint", "ci", "ci", "watch", ""}).Draw(t, "command")
+	for i := range c.Files {
+		if !c.Files[i].Removed {
+			c.Files[i].State = rapid.SampledFrom([]string{"noop", "noop", "added", "modified", "moved"}).Draw(t, fmt.Sprintf("state%d", i))
+		}
+	}
+	c.Class += ";cmd=" + c.Command
 	// sometimes the baseline already disables another check: the relation must compose
 	if rapid.IntRange(0, 4).Draw(t, "preDisabled") == 0 {
 		m := rapid.SampledFrom(checks.CheckNames).Draw(t, "preDisabledName")
@@ -809,6 +836,9 @@ func genDoc(t *rapid.T) Case {
 		rs := RuleSwitch{
 			MatchKind: rapid.SampledFrom([]string{"", "alerting", "recording"}).Draw(t, lbl+".kind"),
 			First:     rapid.Bool().Draw(t, lbl+".first"),
+		}
+		if rapid.IntRange(0, 2).Draw(t, lbl+".hasState") == 0 {
+			rs.MatchState = rapid.SampledFrom([][]string{{"any"}, {"unmodified"}, {"added", "modified"}, {"renamed", "unmodified"}}).Draw(t, lbl+".state")
 		}
 		x := rapid.SampledFrom(checks.CheckNames).Draw(t, lbl+".name")
 		if rapid.IntRange(0, 3).Draw(t, lbl+".disable") == 0 {
@@ -886,7 +916,7 @@ func TestPropToggle(t *testing.T) {
 			if errors.Is(err, errInfra) {
 				rt.Fatalf("%v", err) // a rejected configuration or a crash: no recorded case = inconclusive
 			}
-			rec.Case(cls, nontrivial, cls+"\x00"+baseConfig(c)+"\x00"+filesKey(c.Files), func() any { return sample(c, base.Problems) })
+			rec.Case(cls, nontrivial, cls+"\x00"+c.Command+"\x00"+baseConfig(c)+"\x00"+filesKey(c.Files), func() any { return sample(c, base.Problems) })
 			if err != nil {
 				if id, ok := known[knownClass(c, err)]; ok {
 					rec.KnownHit(id, c)
@@ -894,7 +924,7 @@ func TestPropToggle(t *testing.T) {
 				}
 				rec.Fail(c, err)
 				focus = &[2]string{c.Name, c.Mechanism}
-				rt.Fatalf("%v\n--- config ---\n%s\n--- files ---\n%s", err, baseConfig(c), filesKey(c.Files))
+				rt.Fatalf("%v\n--- command %q, config ---\n%s\n--- files ---\n%s", err, c.Command, baseConfig(c), filesKey(c.Files))
 			}
 		}
 	})
@@ -903,7 +933,7 @@ func TestPropToggle(t *testing.T) {
 func filesKey(fs []FileSpec) string {
 	var b strings.Builder
 	for _, f := range fs {
-		fmt.Fprintf(&b, "## %s removed=%v\n%s", f.Name, f.Removed, f.Content)
+		fmt.Fprintf(&b, "## %s removed=%v state=%s\n%s", f.Name, f.Removed, f.State, f.Content)
 	}
 	return b.String()
 }
@@ -1057,8 +1087,13 @@ func TestPropBinary(t *testing.T) {
 	rapid.Check(t, func(rt *rapid.T) {
 		doc := genDoc(rt)
 		doc.Kind = "binary"
-		for i := range doc.Switches { // the JSON report carries no rule kind: keep rule-block switches match-less
+		for i := range doc.Switches { // the JSON report carries no rule kind or state: keep rule-block switches match-less
 			doc.Switches[i].MatchKind = ""
+			doc.Switches[i].MatchState = nil
+		}
+		doc.Command = "lint" // the binary stage runs `pint lint`: every entry is unmodified
+		for i := range doc.Files {
+			doc.Files[i].State = ""
 		}
 		srv := newServer(doc)
 		defer srv.Close()
@@ -1079,7 +1114,7 @@ func TestPropBinary(t *testing.T) {
 				c.Name, c.Mechanism = n, m
 				nontrivial, err := checkBinaryCase(bin, c, srv, base)
 				cls := "binary " + m + " " + n
-				rec.Case(cls, nontrivial, cls+"\x00"+baseConfig(c)+"\x00"+filesKey(c.Files), func() any { return sample(c, base) })
+				rec.Case(cls, nontrivial, cls+"\x00"+c.Command+"\x00"+baseConfig(c)+"\x00"+filesKey(c.Files), func() any { return sample(c, base) })
 				if errors.Is(err, errInfra) {
 					rt.Fatalf("%v", err) // no recorded case: inconclusive
 				}
@@ -1090,7 +1125,7 @@ func TestPropBinary(t *testing.T) {
 					}
 					rec.Fail(c, err)
 					focus = &[2]string{n, m}
-					rt.Fatalf("%v\n--- config ---\n%s\n--- files ---\n%s", err, baseConfig(c), filesKey(c.Files))
+					rt.Fatalf("%v\n--- command %q, config ---\n%s\n--- files ---\n%s", err, c.Command, baseConfig(c), filesKey(c.Files))
 				}
 			}
 		}
